@@ -31,7 +31,7 @@ ASSUMPTIONS = ['the real kernel is not consulted (this sandbox kernel refuses SA
                'of the xfrm_user.c verification rules in sim/kernel.py', 'NLMSG_DONE / multipart / padded replies are not produced by the model '
                '(Linux answers these requests with a single NLMSG_ERROR ack)']
 NOT_EXERCISED = ['NLMSG_DONE, multi-part and padded replies', 'ACQUIRE for ICMP flows (type/code instead of ports)']
-EXPECT_REACH = ['newsa_compared', 'policies_compared', 'acquire_decoded', 'expire_soft_decoded', 'expire_hard_decoded', 'delsa_checked',
+EXPECT_REACH = ['newsa_compared', 'key_bytes_compared', 'policies_compared', 'acquire_decoded', 'expire_soft_decoded', 'expire_hard_decoded', 'delsa_checked',
                 'family.4', 'family.6', 'family.mixed', 'port.sentinel', 'lifetime.infinite', 'lifetime.finite', 'proto.ah', 'proto.esp', 'mode.tunnel',
                 'mode.transport', 'kernel_error_surfaced']
 AUTH_NAME = {2: 'hmac(sha1)', 12: 'hmac(sha256)', 14: 'hmac(sha512)'}
@@ -145,6 +145,17 @@ def judge(w, tap, ctx, scenario, reach):
             if a is None or a[0] != AUTH_NAME[ch['integ']] or a[1] != AUTH_KEYBITS[ch['integ']] or len(a[2]) * 8 != a[1]:
                 return V('sa_integrity_algorithm_wrong', tag, f'{node_name} {who}: XFRMA_ALG_AUTH {a and (a[0], a[1], len(a[2]))}, negotiated '
                                                               f'{AUTH_NAME[ch["integ"]]} / {AUTH_KEYBITS[ch["integ"]]} bits')
+            # key bytes: the octets in the attribute are the negotiated key of that direction, all of them (reference KEYMAT from the wiretap)
+            km = ch.get('keymat')
+            if km:
+                d = 'i' if who in ('initiator outbound', 'responder inbound') else 'r'
+                if ch['proto'] == R.PROTO_ESP and c is not None and bytes(c[2]) != km['e' + d]:
+                    return V('sa_key_bytes_differ', dict(tag, key='encryption'), f'{node_name} {who}: XFRMA_ALG_CRYPT key {bytes(c[2]).hex()} is not the '
+                                                                                 f'negotiated SK_e{d} {km["e" + d].hex()}')
+                if bytes(a[2]) != km['a' + d]:
+                    return V('sa_key_bytes_differ', dict(tag, key='integrity'), f'{node_name} {who}: XFRMA_ALG_AUTH key {bytes(a[2]).hex()} is not the '
+                                                                                f'negotiated SK_a{d} {km["a" + d].hex()}')
+                reach['key_bytes_compared'] = reach.get('key_bytes_compared', 0) + 1
             lft = sa['lft']
             for f in ('soft_byte_limit', 'hard_byte_limit', 'soft_packet_limit', 'hard_packet_limit'):
                 if lft[f] != INF:
